@@ -133,19 +133,22 @@ class Renames(EvalableModel):
     """
 
     def get_renames_for_einsum(self, einsum_name: EinsumName) -> EinsumRename:
-        if einsum_name not in self.einsums:
-            rename = EinsumRename(name=einsum_name)
-        else:
-            rename = copy.deepcopy(self.einsums[einsum_name])
-        for einsum in self.einsums:
-            if einsum.name != "default":
-                continue
-            for tensor_rename in einsum.tensor_accesses:
-                if tensor_rename.name not in rename.tensor_accesses:
-                    rename.tensor_accesses.append(tensor_rename)
-            for rank_variable_rename in einsum.rank_variables:
-                if rank_variable_rename.name not in rename.rank_variables:
-                    rename.rank_variables.append(rank_variable_rename)
+        rename = EinsumRename(name=einsum_name)
+        # Entries named like the Einsum first, then the defaults they do not override
+        for wanted in (einsum_name, "default"):
+            for einsum in self.einsums:
+                if einsum.name != wanted:
+                    continue
+                taken = [r.name for r in rename.tensor_accesses]
+                taken += [r.name for r in rename.rank_variables]
+                for tensor_rename in einsum.tensor_accesses:
+                    if tensor_rename.name not in taken:
+                        rename.tensor_accesses.append(copy.deepcopy(tensor_rename))
+                for rank_variable_rename in einsum.rank_variables:
+                    if rank_variable_rename.name not in taken:
+                        rename.rank_variables.append(
+                            copy.deepcopy(rank_variable_rename)
+                        )
         return rename
 
     def _for_einsum(self, einsum_name: EinsumName) -> "Renames":
